@@ -21,6 +21,7 @@ class _State:
         self.events = []
         self.installed = False
         self.depth = 0
+        self.peak = 0.0      # largest ||output|| seen by the Linop.apply hook (reset per use)
 
     def event(self, prop, kind, detail):
         self.count["violation:%s:%s" % (prop, kind)] += 1
